@@ -4,9 +4,15 @@ package props
 
 import (
 	"bytes"
+	"crypto/rand"
+	"crypto/sha512"
 	"fmt"
+	"io"
 	"math/big"
 	"testing"
+
+	"github.com/bnb-chain/tss-lib/v2/tss"
+	"verif/harness/ref"
 
 	eckeygen "github.com/bnb-chain/tss-lib/v2/ecdsa/keygen"
 	edkeygen "github.com/bnb-chain/tss-lib/v2/eddsa/keygen"
@@ -50,7 +56,9 @@ func genKeyChoice(t *rapid.T, edd bool) keyChoice {
 	return k
 }
 
-func (k keyChoice) String() string { return fmt.Sprintf("%s n=%d t=%d keys=%s", k.Src, k.N, k.T, k.Pattern) }
+func (k keyChoice) String() string {
+	return fmt.Sprintf("%s n=%d t=%d keys=%s", k.Src, k.N, k.T, k.Pattern)
+}
 
 // resolveED returns the key data (by party index), sorted party keys and the secret key if known (dealer).
 func (k keyChoice) resolveED() ([]edkeygen.LocalPartySaveData, []*big.Int, *big.Int, error) {
@@ -94,6 +102,8 @@ type c02Case struct {
 	LenCls  string
 	FBL     bool // pass fullBytesLen = len(Msg)
 	Sched   SchedSpec
+	Steer   string // "", "r-lead0", "s-lead0", "r+s-lead0": force an encoding with a zero top byte
+	SteerSd int
 }
 
 func genC02(t *rapid.T) c02Case {
@@ -127,7 +137,71 @@ func genC02(t *rapid.T) c02Case {
 	c.Msg = bx(b)
 	c.FBL = rapid.Bool().Draw(t, "fbl")
 	c.Sched = genSched(t, len(c.Signers), schedNoDup)
+	c.Steer = rapid.SampledFrom([]string{"", "", "", "r-lead0", "s-lead0", "r+s-lead0"}).Draw(t, "steer")
+	c.SteerSd = rapid.IntRange(0, 1<<30).Draw(t, "steerseed")
 	return c
+}
+
+// planSteerEd chooses the signers' nonces r_i (first draw of each signer's random source) so that the
+// encoding of R = sum r_i*G has a zero top byte, and (when the private key is known: dealer keys) appends
+// a counter to the message until S = r + H(R,A,M)*a mod L has a zero top byte. Generation-side only.
+func planSteerEd(c c02Case, nSigners int, priv *big.Int, pubX, pubY *big.Int, msg []byte, fbl bool) (rs []*big.Int, outMsg []byte) {
+	L := ref.Ed.L
+	d := newDRBG(fmt.Sprintf("steer-ed/%d", c.SteerSd))
+	rnd := func() *big.Int {
+		b := make([]byte, 40)
+		d.Read(b)
+		v := new(big.Int).SetBytes(b)
+		v.Mod(v, add(L, -1))
+		return v.Add(v, one)
+	}
+	rtot := rnd()
+	curve := tss.Edwards()
+	var enc [32]byte
+	for i := 0; i < 100000; i++ {
+		x, y := curve.ScalarBaseMult(rtot.Bytes())
+		enc = ref.Ed.Encode(ref.Point{X: x, Y: y})
+		if c.Steer == "s-lead0" || enc[31] == 0 {
+			break
+		}
+		rtot = add(rtot, 1)
+	}
+	sum := new(big.Int)
+	for i := 0; i < nSigners-1; i++ {
+		r := rnd()
+		rs = append(rs, r)
+		sum.Add(sum, r)
+	}
+	last := new(big.Int).Sub(rtot, sum)
+	last.Mod(last, L)
+	if last.Sign() == 0 {
+		last = big.NewInt(1)
+	}
+	rs = append(rs, last)
+	outMsg = msg
+	if priv != nil && c.Steer != "r-lead0" {
+		A := ref.Ed.Encode(ref.Point{X: pubX, Y: pubY})
+		for ctr := 0; ctr < 4096; ctr++ {
+			m := append(append([]byte{}, msg...), byte(ctr>>8), byte(ctr))
+			echo := m
+			if !fbl { // the library hashes the stripped message
+				echo = new(big.Int).SetBytes(m).Bytes()
+			}
+			h := sha512.New()
+			h.Write(enc[:])
+			h.Write(A[:])
+			h.Write(echo)
+			k := leInt(h.Sum(nil))
+			k.Mod(k, L)
+			S := new(big.Int).Mul(k, priv)
+			S.Add(S, rtot)
+			S.Mod(S, L)
+			if S.BitLen() <= 248 {
+				return rs, m
+			}
+		}
+	}
+	return rs, outMsg
 }
 
 func runC02(c c02Case) ev.Outcome {
@@ -138,13 +212,22 @@ func runC02(c c02Case) ev.Outcome {
 		out.Err, out.Sig = fmt.Errorf(f, a...), sig
 		return out
 	}
-	data, _, _, err := c.Key.resolveED()
+	data, _, secret, err := c.Key.resolveED()
 	if err != nil {
 		panic("harness: " + err.Error())
 	}
 	var keys []edkeygen.LocalPartySaveData
 	for _, i := range c.Signers {
 		keys = append(keys, data[i])
+	}
+	var readers []io.Reader
+	if c.Steer != "" {
+		pub0 := data[0].EDDSAPub
+		var rs []*big.Int
+		rs, msg = planSteerEd(c, len(keys), secret, pub0.X(), pub0.Y(), msg, c.FBL)
+		for _, r := range rs {
+			readers = append(readers, &prefixReader{prefix: r.FillBytes(make([]byte, 32)), rest: rand.Reader})
+		}
 	}
 	m := new(big.Int).SetBytes(msg)
 	fbl := -1
@@ -153,7 +236,11 @@ func runC02(c c02Case) ev.Outcome {
 		fbl = len(msg)
 		want = msg
 	}
-	net, _, _ := sim.NewSigning(sim.SignCfg{EdDSA: true, EDKeys: keys, T: c.Key.T, Msg: m, FullBytesLen: fbl})
+	cfg := sim.SignCfg{EdDSA: true, EDKeys: keys, T: c.Key.T, Msg: m, FullBytesLen: fbl}
+	if readers != nil {
+		cfg.Rand = func(i int) io.Reader { return readers[i] }
+	}
+	net, _, _ := sim.NewSigning(cfg)
 	c.Sched.apply(net)
 	net.Run(c.Sched.Make(), 20000)
 	if e := honestRunProblems(net); e != nil {
@@ -171,6 +258,16 @@ func runC02(c c02Case) ev.Outcome {
 		} else if !bytes.Equal(first, s.Signature) {
 			return fail("differ", "signers output different signatures")
 		}
+	}
+	// observed encoding classes (measured on the output)
+	if first[31] == 0 {
+		out.Label += " out:R-top0"
+	}
+	if first[63] == 0 {
+		out.Label += " out:S-top0"
+	}
+	if first[0] == 0 || first[32] == 0 {
+		out.Label += " out:low0"
 	}
 	return out
 }
